@@ -224,7 +224,23 @@ def reader_events(np, exact, rl, fsets, rnd, per_set, maxn, eid0):
             evs.append({"id": eid0 + len(evs), "ev": "reader", "fileset": fsx.key, "o": o, "n": n, "got": int(len(z)), "len": L,
                         "rawlen": rawlen, "rate": int(round(z.sample_rate.to_value(u.Hz))), "rawrate": int(round(rawrate))})
             evs += lane_events(np, exact, raw, d, 0, 5, eid0 + len(evs),
-                               {"fileset": fsx.key, "o": o, "n": n, "src": "reader"}, cj=fsx.lsb, max_lanes=3)
+                               {"fileset": fsx.key, "o": o, "n": n, "src": "reader", "how": "numpy"}, cj=fsx.lsb, max_lanes=3)
+            # the same read through Dask with chunks that split the time axis (evenly, unevenly, single samples) and a
+            # trailing axis: still the conversion of the WHOLE raw slice
+            nd = d.ndim
+            layouts = [(max(1, n // 2),) + (-1,) * (nd - 1),
+                       (((n - n // 3, n // 3) if n >= 3 else 1),) + (-1,) * (nd - 1),
+                       (1,) + (-1,) * (nd - 2) + (1,)]
+            first = (o + n) % 3
+            for ck in [layouts[first]] + ([layouts[(first + 1) % 3]] if n >= 2 else []):
+                try:
+                    dd = np.asarray(r.read(o, n, use_dask=True, chunks=ck).data.compute())
+                except Exception as e:  # noqa
+                    evs.append({"id": eid0 + len(evs), "ev": "reader", "fileset": fsx.key, "o": o, "n": n, "got": -1, "len": L,
+                                "rawlen": rawlen, "rate": 0, "rawrate": int(round(rawrate)), "error": "dask chunks=%r: %s" % (ck, str(e)[:150])})
+                    continue
+                evs += lane_events(np, exact, raw, dd, 0, 5, eid0 + len(evs),
+                                   {"fileset": fsx.key, "o": o, "n": n, "src": "reader", "how": "dask chunks=%r" % (ck,)}, cj=fsx.lsb, max_lanes=2)
     return evs
 
 
@@ -305,7 +321,9 @@ def long_read_events(np, exact, rl, r2c, fsets, th, eid0):
             raw = fsx.direct(2 * o, 2 * n)
             try:
                 if how == "dask":
-                    zd = r.read(o, n, use_dask=True, chunks=(-1, -1, 2)) if i % 2 else r.dask_read(o, n)
+                    ck = [None, (32, -1, -1), (-1, -1, 2), (1000, -1, 1), ((n - n // 3, n // 3), -1, -1), (max(1, n // 2), -1, -1), (4097, -1, -1)][(i // 3) % 7]
+                    how = "dask chunks=%r" % (ck,)
+                    zd = r.dask_read(o, n) if ck is None else r.read(o, n, use_dask=True, chunks=ck)
                     d = np.asarray(zd.data.compute())
                 else:
                     d = np.asarray(r.read(o, n).data)
@@ -430,14 +448,17 @@ def run(chk):
                 e["id"] = len(events) + i
             events += lev
             # refusals and the dtype rule
+            # complex input is refused whatever its shape: every rank, every axis, also empty along the chosen or another axis
             for dt in COMPLEX_DTYPES:
-                try:
-                    got = str(r2c(np.ones((4, 2), dtype=dt), axis=rnd.choice([0, 1])).dtype)
-                except ValueError:
-                    got = "ValueError"
-                except Exception as e:  # noqa
-                    got = type(e).__name__
-                events.append({"id": len(events), "ev": "dtype", "din": dt, "got": got, "src": "complex"})
+                for shape in ((4, 2), (5,), (1,), (0,), (4, 0), (0, 3), (2, 0, 3), (0, 0), (2, 3, 1)):
+                    for ax in range(-len(shape), len(shape)):
+                        try:
+                            got = str(r2c(np.ones(shape, dtype=dt), axis=ax).dtype)
+                        except ValueError:
+                            got = "ValueError"
+                        except Exception as e:  # noqa
+                            got = type(e).__name__
+                        events.append({"id": len(events), "ev": "dtype", "din": dt, "got": got, "src": "complex", "shape": list(shape), "axis": ax})
             rnd.shuffle(events)
             jtrace = pool.submit(rl.validate, "Trace_R2C", events, chk, batch=max(60, len(events) // 6 + 1), jobs=6, name="C19",
                                  cfg="Trace_R2C_full.cfg" if th else "Trace_R2C.cfg")
@@ -473,15 +494,15 @@ def run(chk):
                                   "real_to_complex(%s array of shape %r, axis=%d), lane %d: %s" % (e["dtype"], e["shape"], e["axis"], e["lane"], failed),
                                   {"kind": "random", "dtype": e["dtype"], "shape": e["shape"], "axis": e["axis"], "vals": e["vals"]})
                 elif e["ev"] == "r2c":
-                    chk.violation("reader-path:%s:%s" % (e["fileset"], "+".join(failed)),
-                                  "read(%d, %d) on %s is not R2C(raw[2o:2o+2n])%s: %s" % (e["o"], e["n"], e["fileset"], " conjugated" if e["cj"] else "", failed),
+                    chk.violation("reader-path:%s:%s:%s" % (e["fileset"], e.get("how", "numpy").split(" ")[0], "+".join(failed)),
+                                  "%s read(%d, %d) on %s is not R2C(raw[2o:2o+2n])%s: %s" % (e.get("how", "numpy"), e["o"], e["n"], e["fileset"], " conjugated" if e["cj"] else "", failed),
                                   {"kind": "reader", "fileset": e["fileset"], "o": e["o"], "n": e["n"]})
                 elif e["ev"] == "readerlen":
                     chk.violation("reader-path:length:%s:%s" % ("odd" if e["rawlen"] % 2 else "even", "+".join(sorted(failed))),
                                   "real-sampled stream %s of %d raw samples: reader length %d, %s" % (e["fileset"], e["rawlen"], e["len"], failed),
                                   {"kind": "readerlen", "fileset": e["fileset"]})
                 elif e["ev"] == "longreal" and e.get("src") == "reader-long":
-                    chk.violation("reader-path:long-read:%s:%s" % (e["how"], "+".join(sorted(failed))),
+                    chk.violation("reader-path:long-read:%s:%s" % (e["how"].split(" ")[0], "+".join(sorted(failed))),
                                   "%s read(%d, %d) on %s is not the conversion of raw[2o : 2o+2n]: %s" % (e["how"], e["o"], e["n"], e["fileset"], failed),
                                   {"kind": "longread", "fileset": e["fileset"], "o": e["o"], "n": e["n"], "how": e["how"]})
                 elif e["ev"] in ("longreal", "longtone"):
@@ -492,8 +513,11 @@ def run(chk):
                     chk.violation("reader-path:%s:%s" % (e["fileset"], "+".join(failed)), "real-sampled reader %s: %s (%r)" % (e["fileset"], failed, e),
                                   {"kind": "reader", "fileset": e["fileset"], "o": e["o"], "n": e["n"]})
                 else:
-                    chk.violation("dtype:%s" % e["din"], "real_to_complex on %s input gave %s" % (e["din"], e["got"]),
-                                  {"kind": "dtype", "dtype": e["din"]})
+                    shp = e.get("shape")
+                    empty = shp is not None and 0 in shp
+                    chk.violation("dtype:%s%s" % (e["din"], ":empty" if empty else ""),
+                                  "real_to_complex on %s input%s gave %s" % (e["din"], "" if shp is None else " of shape %r, axis=%d" % (tuple(shp), e["axis"]), e["got"]),
+                                  {"kind": "dtype", "dtype": e["din"], "shape": shp, "axis": e.get("axis", 0)})
     finally:
         shutil.rmtree(tmp, ignore_errors=True)
     chk.assumptions += [
@@ -578,7 +602,7 @@ def replay(doc):
     bad = []
     if c["kind"] == "dtype":
         try:
-            got = str(r2c(np.ones(5, dtype=c["dtype"])).dtype)
+            got = str(r2c(np.ones(tuple(c.get("shape") or (5,)), dtype=c["dtype"]), axis=c.get("axis", 0)).dtype)
         except ValueError:
             got = "ValueError"
         want = "ValueError" if c["dtype"] in COMPLEX_DTYPES else ("complex64" if c["dtype"] == "float32" else "complex128")
